@@ -198,7 +198,7 @@ def apply (w : World) : Op → World
   | .agroup seg hs _ _ => { w with agroups := w.agroups ++ [{ owner := 0, pre := [seg], mw := hs }] }
   | .asubgroup g seg hs =>
     match w.agroups[g]? with
-    | some p => { w with agroups := w.agroups ++ [{ owner := 0, pre := p.pre ++ [seg], mw := p.mw ++ hs }] }
+    | some p => { w with agroups := w.agroups ++ [{ owner := p.owner, pre := p.pre ++ [seg], mw := p.mw ++ hs }] }
     | none => w
   | .aguse g hs => { w with agroups := modifyAt w.agroups g fun x => { x with mw := x.mw ++ hs } }
   -- App.Version: router.Version(v) + app VersionGroup with nil middleware and empty prefix
